@@ -2,6 +2,7 @@
 // specification side.  The StreamController contract below (SctlModel) is what the Kani K-refine harnesses check the real
 // `StreamController` against (kani/sctl.rs, same table, transcribed as executable assertions).
 use vstd::prelude::*;
+use std::collections::VecDeque;
 verus! {
 
 pub type Item = i64;
@@ -172,6 +173,11 @@ pub open spec fn live_post<T>(sctl: &SctlModel<T>, d: Seq<Ev<T>>, serial: int) -
 
 pub proof fn lemma_items_push<T>(xs: Seq<T>, x: T)
     ensures items_of(xs.push(x)) =~= items_of(xs).push(Ev::N(x)),
+{
+}
+
+pub proof fn lemma_push_last<T>(xs: Seq<T>, x: T)
+    ensures xs.push(x).drop_last() =~= xs, xs.push(x).last() == x, xs.push(x).len() == xs.len() + 1,
 {
 }
 
